@@ -33,6 +33,30 @@ Theorem C08_cancelled_exits_first : forall s c,
 Proof. exact B.cancelled_exits_first. Qed.
 Print Assumptions C08_cancelled_exits_first.
 
+(* The same with traffic pending: whatever is queued for a running connection whose token is
+   cancelled — a full packet queue, notices — after one scheduler round it has left its loop and
+   NOTHING of it has been written to its client: the token is polled before the queues. *)
+Theorem C08_cancelled_exits_before_queues : forall s c,
+  c < C06.nconns s -> C06.cstate (C06.conns s c) = C06.Running ->
+  C06.cancelled (C06.conns s c) = true ->
+  C06.cstate (C06.conns (C06.settle s) c) = C06.Exited /\
+  C06.got (C06.conns (C06.settle s) c) = C06.got (C06.conns s c) /\
+  C06.pq (C06.conns (C06.settle s) c) = C06.pq (C06.conns s c) /\
+  C06.mq (C06.conns (C06.settle s) c) = C06.mq (C06.conns s c).
+Proof. exact B.cancelled_exits_before_queues. Qed.
+Print Assumptions C08_cancelled_exits_before_queues.
+
+(* Part A, the same fact in the script model the real server is compared with: a disconnect
+   request turns every registered connection it names into a gone one and returns true, whether
+   or not traffic is piled up for it at that moment (busy). *)
+Theorem C08_busy_revoked_stops : forall s id o c,
+  In c s -> C08.matches c id o = true -> C08.phase c = 1 ->
+  match o with Some k => k <? len s | None => true end = true ->
+  In (C08.mkC (C08.num c) (C08.cid c) 2 true false) (fst (C08.exec s (C08.ODisc id o))) /\
+  snd (C08.exec s (C08.ODisc id o)) = 2.
+Proof. exact A.busy_revoked_stops. Qed.
+Print Assumptions C08_busy_revoked_stops.
+
 (* Other connections are unaffected: a disconnect request changes nothing but the tokens of
    the registered connections it names. *)
 Theorem C08_disconnect_only_cancels : forall s id o s',
